@@ -148,9 +148,51 @@ def _history_independence(A):
     return None
 
 
+def one_shot_history():
+    """the section parsers on a one-shot iterator of their lines versus on the list of the same lines"""
+    import chartparse.chart  # noqa
+    import itertools
+    import logging
+    from chartparse.metadata import Metadata
+    from chartparse.sync import SyncTrack
+    from chartparse.globalevents import GlobalEventsTrack
+    from chartparse.instrument import InstrumentTrack, Instrument, Difficulty
+    from . import native_file as nf
+    logging.getLogger("chartparse.track").setLevel(logging.CRITICAL)
+    be = SyncTrack.from_chart_lines(192, list(nf.SYNC[1])).bpm_events
+    cases = []
+    for b in nf.SONG + [["  Offset = 3", '  Name = "x"', "  Resolution = 96", '  Genre = "metal"', "  Player2 = rhythm"]]:
+        cases.append(("Metadata.from_chart_lines", lambda it: Metadata.from_chart_lines(it), b))
+    for b in nf.SYNC:
+        cases.append(("SyncTrack.from_chart_lines", lambda it: SyncTrack.from_chart_lines(192, it), b))
+    for b in nf.EVENTS:
+        cases.append(("GlobalEventsTrack.from_chart_lines", lambda it: GlobalEventsTrack.from_chart_lines(it, be), b))
+    for b in nf.TRACK:
+        cases.append(("InstrumentTrack.from_chart_lines", lambda it: InstrumentTrack.from_chart_lines(Instrument.GUITAR, Difficulty.EXPERT, it, be), b))
+
+    def run(f, arg):
+        try:
+            return ("ok", f(arg))
+        except Exception as e:
+            return ("raised", type(e).__name__)
+    for name, f, body in cases:
+        want = run(f, list(body))
+        for label, mk in (("iter(lines)", lambda: iter(list(body))), ("itertools.islice(lines, 0, n)", lambda: itertools.islice(list(body), 0, len(body)))):
+            got = run(f, mk())
+            if got != want:
+                return {"history": f"{name}({label}) versus {name}(list(lines))", "observed": f"one-shot iterator gives {got!r}; the list gives {want!r}"[:600],
+                        "lines": body}
+    return None
+
+
 def replay(prop_hint, ob_name):
     fails = []
     try:
+        if "iterable-parameter" in ob_name or "one-shot" in ob_name:
+            f = one_shot_history()
+            if f:
+                return True, f
+            return False, "the section parsers give the same result on a one-shot iterator and on a list of the generated bodies"
         if "readonly" in prop_hint or "modifies-nothing" in ob_name or "equality" in ob_name or "auto-inserting" in ob_name or "rejects" in ob_name:
             f = readonly_history()
             if f:
